@@ -219,6 +219,99 @@ def rule_grid_shape(ctx: Ctx) -> RuleResult:
     return rr
 
 
+def rule_nullable_args(ctx: Ctx) -> RuleResult:
+    """parse_csi collects CSI parameters as Optional[int] (None for an empty / non-numeric field) and hands
+    the list to the command callbacks, which do arithmetic and comparisons on them.  Every element - not only
+    the declared ones - must have been replaced by the default before the hand-over."""
+    p = ctx.p
+    rr = RuleResult("NULLABLE", "C15.7", "the CSI argument list may hold None only until a sanitising loop over the whole list has replaced it, before the list reaches a command callback", floor=2)
+    fi = p.func(f"{VT}.TermCanvas.parse_csi")
+    cfg = cfg_of(fi)
+    # list locals that can receive None
+    nullable = set()
+    for n in fi.own_nodes():
+        if isinstance(n, ast.Call) and isinstance(n.func, ast.Attribute) and n.func.attr == "append" and isinstance(n.func.value, ast.Name) and n.args:
+            a = n.args[0]
+            vals = [a]
+            if isinstance(a, ast.Name):
+                vals = [x.value for x in fi.own_nodes() if isinstance(x, ast.Assign) and any(isinstance(t, ast.Name) and t.id == a.id for t in x.targets)]
+            if any(isinstance(v, ast.Constant) and v.value is None for v in vals):
+                nullable.add(n.func.value.id)
+    if not nullable:
+        raise AnalysisError("parse_csi: no list receiving None found (the argument parsing changed shape)")
+    for lst in sorted(nullable):
+        rr.inst(f"nullable list {lst}", True, {"list": lst})
+        # sanitising loops: for i in range(len(L)) / for i, x in enumerate(L) with `L[i] = ...` under a None test of L[i]
+        sanit = []
+        for h in cfg.nodes:
+            if h.kind != "for":
+                continue
+            it = h.ast.iter
+            whole = False
+            if isinstance(it, ast.Call) and isinstance(it.func, ast.Name) and it.func.id == "range" and len(it.args) == 1:
+                a0 = it.args[0]
+                whole = isinstance(a0, ast.Call) and isinstance(a0.func, ast.Name) and a0.func.id == "len" and a0.args and isinstance(a0.args[0], ast.Name) and a0.args[0].id == lst
+            elif isinstance(it, ast.Call) and isinstance(it.func, ast.Name) and it.func.id == "enumerate" and it.args and isinstance(it.args[0], ast.Name) and it.args[0].id == lst:
+                whole = True
+            stores = [x for x in ast.walk(h.ast) if isinstance(x, ast.Subscript) and isinstance(x.ctx, ast.Store) and isinstance(x.value, ast.Name) and x.value.id == lst]
+            tests_none = any(isinstance(c, ast.Compare) and isinstance(c.ops[0], ast.Is) and isinstance(c.comparators[0], ast.Constant) and c.comparators[0].value is None for c in ast.walk(h.ast))
+            if stores and tests_none:
+                if whole:
+                    sanit.append(h)
+                else:
+                    rr.inst(f"partial sanitiser {norm(h.stmt, 50)}", True)
+        # rebinding through a comprehension over the whole list also sanitises
+        for n in cfg.nodes:
+            a = n.ast
+            if isinstance(a, ast.Assign) and any(isinstance(t, ast.Name) and t.id == lst for t in a.targets) and isinstance(a.value, ast.ListComp) and any(isinstance(g.iter, ast.Name) and g.iter.id == lst for g in a.value.generators) and "None" in ast.unparse(a.value):
+                sanit.append(n)
+        # hand-over sites: the list passed as an argument to a non-builtin call
+        for c in fi.own_nodes():
+            if not isinstance(c, ast.Call) or not any(isinstance(a, ast.Name) and a.id == lst for a in c.args):
+                continue
+            if isinstance(c.func, ast.Name) and c.func.id in ("len", "range", "enumerate", "list", "tuple"):
+                continue
+            if isinstance(c.func, ast.Attribute) and isinstance(c.func.value, ast.Name) and c.func.value.id == lst:
+                continue
+            cn = nodes_where(cfg, lambda x, c=c: x is c)
+            rr.inst(f"hand-over {norm(c, 50)}", True, {"call": norm(c, 60), "sanitising_loops": len(sanit)})
+            # the F (exhausted) edge of a whole-list sanitising loop must dominate the call
+            ok = bool(sanit) and all(any(n not in cfg.reachable([cfg.entry], avoid=[h], include_start=True) for h in sanit) for n in cn)
+            if not ok:
+                rr.add(finding("NULLABLE", fi, c, f"`{norm(c, 50)}` receives `{lst}`, which can still contain None (empty or non-numeric CSI parameter): no loop over the whole list (`range(len({lst}))`) replaces None before the hand-over, and the callbacks compare / add these values (TypeError is not suppressed)", construct=f"{lst} handed over with possible None"))
+    return rr
+
+
+def rule_resize_width_first(ctx: Ctx) -> RuleResult:
+    p = ctx.p
+    rr = RuleResult("ORDER", "C15.4b", "resize() stores the new width before it creates or re-inserts any row, so every row it adds has the new width", floor=2)
+    fi = p.func(f"{VT}.TermCanvas.resize")
+    cfg = cfg_of(fi)
+    wparam = fi.params[1]
+    stores = [n for n in cfg.nodes if isinstance(n.ast, ast.Assign) and any(isinstance(t, ast.Attribute) and t.attr == "width" and isinstance(t.value, ast.Name) and t.value.id == fi.self_name for t in ast.walk(n.ast) if isinstance(t, ast.Attribute) and isinstance(t.ctx, ast.Store))]
+    good = []
+    for n in stores:
+        a = n.ast
+        # self.width = width   or   self.width, self.height = width, height
+        for t in a.targets:
+            if isinstance(t, ast.Attribute) and ast.unparse(a.value) == wparam:
+                good.append(n)
+            elif isinstance(t, ast.Tuple) and isinstance(a.value, ast.Tuple):
+                for te, ve in zip(t.elts, a.value.elts):
+                    if isinstance(te, ast.Attribute) and te.attr == "width" and ast.unparse(ve) == wparam:
+                        good.append(n)
+    if not good:
+        rr.inst("width store", True)
+        rr.add(finding("ORDER", fi, fi.node, f"resize() never stores the new width (`self.width = {wparam}`)", construct="resize: width never stored"))
+        return rr
+    grows = nodes_where(cfg, lambda x: isinstance(x, ast.Call) and isinstance(x.func, ast.Attribute) and x.func.attr in ("append", "insert") and ast.unparse(x.func.value) == "self.term")
+    for g in grows:
+        rr.inst(f"row added: {norm(g.stmt, 50)}", True, {"statement": norm(g.stmt, 60)})
+        if not cfg.dominated(g, good):
+            rr.add(finding("ORDER", fi, g.stmt, f"`{norm(g.stmt, 50)}` adds a row to the grid on a path where `self.width` still holds the old width: rows built by empty_line() / normalised to self.width get the old number of cells and the grid is no longer height x width", construct=f"row added before the width store: {norm(g.stmt, 50)}"))
+    return rr
+
+
 def run(ctx: Ctx):
     p = ctx.p
     tc = f"{VT}.TermCanvas"
@@ -233,5 +326,7 @@ def run(ctx: Ctx):
         rule_grid_shape(ctx),
         prog.run_progress(p, "C15.5", loops, floor=5, description="every while loop in TermCanvas assigns its driving variable on every back edge"),
         kind.run_kind(p, "C15.6", [VT], floor=3),
+        rule_nullable_args(ctx),
+        rule_resize_width_first(ctx),
     ]
     return out
